@@ -327,7 +327,18 @@ func (d *Downstream) flushAck() error {
 	d.dataIDAckBuffer = make(map[uint32]*message.DataID)
 	d.resultAckBuffer = make([]*message.DownstreamChunkResult, 0)
 
-	return d.wireConn.SendDownstreamDataPointsAck(d.ctx, ack)
+	if err := d.wireConn.SendDownstreamDataPointsAck(d.ctx, ack); err != nil {
+		// the ack could not be written (e.g. the connection is gone): keep its content for the next flush
+		for k, v := range ack.UpstreamAliases {
+			d.upstreamInfoAckBuffer[k] = v
+		}
+		for k, v := range ack.DataIDAliases {
+			d.dataIDAckBuffer[k] = v
+		}
+		d.resultAckBuffer = append(ack.Results, d.resultAckBuffer...)
+		return err
+	}
+	return nil
 }
 
 func (d *Downstream) ackCompleteOrDone(ctx context.Context) <-chan *message.DownstreamChunkAckComplete {
